@@ -11,7 +11,7 @@ import (
 
 // a ReaderX string read allocates the announced length before reading: announced lengths above this are not
 // passed to ReadString of the stream reader (the harness additionally runs under ulimit -v)
-const prefixCap = 4096
+const prefixCap = 8192
 
 // ---------------------------------------------------------------- values biased to the boundaries the code branches on
 
@@ -254,6 +254,19 @@ func genRound(r *rand.Rand, e *vh.Env) []vh.Case {
 	for i := range ws {
 		ws[i] = genWrite(r, writeKinds, true)
 	}
+	// a third of the programs contain limited strings over their limit: refused writes in the middle of a sequence that
+	// goes on (the accepted writes must still read back)
+	if n > 0 && r.Intn(3) == 0 {
+		for k := 0; k < 1+r.Intn(2); k++ {
+			s := pickBytes(r, 1+r.Intn(8))
+			lim := uint32(len(s) - 1)
+			if r.Intn(3) == 0 {
+				lim = uint32(r.Intn(len(s)))
+			}
+			at := r.Intn(len(ws) + 1)
+			ws = append(ws[:at], append([]op{{k: "WLimStr", lim: lim, s: s}}, ws[at:]...)...)
+		}
+	}
 	allUpTo := 20
 	if e.Thorough || e.Search {
 		allUpTo = 48
@@ -272,18 +285,30 @@ func roundCases(r *rand.Rand, ws []op, allUpTo int) []vh.Case {
 	}
 	enc := cp(b.Bytes())
 	obs = append(obs, outc{k: "bytes", bs: enc})
-	rs := make([]op, len(ws))
-	for i, w := range ws {
-		rs[i] = readerOf(r, w, true)
-		obs = append(obs, doBuf(b, rs[i]))
+	// the reads belong to the accepted writes; a limited string over its limit is refused and is not part of the sequence
+	var aws, rs []op
+	for _, w := range ws {
+		if w.k == "WLimStr" && uint32(len(w.s)) > w.lim {
+			continue
+		}
+		aws = append(aws, w)
+		rs = append(rs, readerOf(r, w, true))
+	}
+	for _, rd := range rs {
+		obs = append(obs, doBuf(b, rd))
 	}
 	obs = append(obs, doBuf(b, op{k: "XLen"}))
+	class := "round/full"
+	if len(aws) != len(ws) {
+		class = "round/with-refused-writes"
+	}
 	cases = append(cases, vh.Case{
 		Coq:        fmt.Sprintf("(CRound %s %s)", coqOps(ws), coqOuts(obs)),
-		Class:      "round/full",
+		Class:      class,
 		Nontrivial: len(ws) > 0,
-		Desc:       map[string]interface{}{"kind": "round", "writes": descOps(ws), "obs": descOuts(obs)},
+		Desc:       map[string]interface{}{"kind": "round", "writes": descOps(ws), "reads": descOps(rs), "obs": descOuts(obs)},
 	})
+	ws = aws // the truncation experiments use the stream of the accepted writes
 	// CTrunc: every truncation point of a short stream; the codec boundaries (+-1) and random points of a long one
 	total := len(enc)
 	cutSet := map[int]bool{}
@@ -295,7 +320,7 @@ func roundCases(r *rand.Rand, ws []op, allUpTo int) []vh.Case {
 		cutSet[0], cutSet[total], cutSet[total-1] = true, true, true
 		// boundaries
 		bb := bytex.NewBufferX()
-		var bounds []int
+		bounds := []int{0}
 		for _, w := range ws {
 			doBuf(bb, w)
 			bounds = append(bounds, bb.Len())
@@ -360,8 +385,20 @@ func genHist(r *rand.Rand, e *vh.Env) []vh.Case {
 		default:
 			o = op{k: "XReset"}
 		}
+		refusedW := o.k == "WLimStr" && uint32(len(o.s)) > o.lim
+		if refusedW {
+			// look at the buffer before and after a refused write
+			q := op{k: []string{"XLen", "XBytes"}[r.Intn(2)]}
+			ops = append(ops, q)
+			obs = append(obs, doBuf(b, q))
+		}
 		ops = append(ops, o)
 		obs = append(obs, doBuf(b, o))
+		if refusedW {
+			q := op{k: []string{"XLen", "XBytes"}[r.Intn(2)]}
+			ops = append(ops, q)
+			obs = append(obs, doBuf(b, q))
+		}
 	}
 	final := cp(b.Bytes())
 	return []vh.Case{{
@@ -535,108 +572,6 @@ func chunkings(r *rand.Rand, data []byte) ([][]byte, string) {
 	return cs, name
 }
 
-func genStream(r *rand.Rand, e *vh.Env) []vh.Case {
-	var data []byte
-	var ops []op
-	kind := ""
-	switch x := r.Intn(10); {
-	case x < 6: // a valid stream (possibly truncated) with its own readers
-		kind = "typed"
-		n := r.Intn(7)
-		if r.Intn(8) == 0 {
-			n = 8 + r.Intn(12)
-		}
-		b := bytex.NewBufferX()
-		for i := 0; i < n; i++ {
-			w := genWrite(r, streamWriteKinds, true)
-			if doBuf(b, w).k != "done" {
-				continue
-			}
-			ops = append(ops, readerOf(r, w, false))
-		}
-		data = cp(b.Bytes())
-		if r.Intn(3) == 0 && len(data) > 0 {
-			kind = "typed-truncated"
-			data = data[:r.Intn(len(data))]
-		}
-		if r.Intn(3) == 0 {
-			ops = append(ops, genRead(r, streamReadKinds)) // one read past the end
-		}
-	case x < 8: // strings against the limit and the available bytes
-		kind = "string"
-		n := []uint32{0, 0, 1, 2, 5, 9, 300, 65536, 1 << 31, ^uint32(0)}[r.Intn(10)]
-		var pre [4]byte
-		binary.LittleEndian.PutUint32(pre[:], n)
-		data = append(data, pre[:[]int{4, 4, 4, 4, 3, 1, 0}[r.Intn(7)]]...)
-		if len(data) == 4 && n <= 300 {
-			avail := int(n) + r.Intn(3) - 1
-			if avail < 0 {
-				avail = 0
-			}
-			data = append(data, pickBytes(r, avail)...)
-		}
-		if r.Intn(2) == 0 {
-			ops = append(ops, op{k: "RStr"})
-		} else {
-			ops = append(ops, op{k: "RLimStr", lim: n + uint32(r.Intn(3)) - 1})
-		}
-		ops = append(ops, genRead(r, streamReadKinds))
-	default:
-		kind = "random"
-		data = pickBytes(r, r.Intn(30))
-		for k := 0; k < 1+r.Intn(6); k++ {
-			ops = append(ops, genRead(r, streamReadKinds))
-		}
-	}
-	// buffer reader first; it also tells where a hostile announced length would make the stream reader allocate
-	bb := bytex.NewReadableBufferX(cp(data))
-	obsB := make([]outc, 0, len(ops))
-	for i := range ops {
-		if ops[i].k == "RStr" || ops[i].k == "RLimStr" {
-			if rest := bb.Bytes(); len(rest) >= 4 {
-				n := binary.LittleEndian.Uint32(rest[:4])
-				if n > prefixCap && (ops[i].k == "RStr" || n <= ops[i].lim) {
-					ops[i] = op{k: "RU32"}
-				}
-			}
-		}
-		obsB = append(obsB, doBuf(bb, ops[i]))
-	}
-	restB := cp(bb.Bytes())
-	cs, cname := chunkings(r, data)
-	src := &chunkSrc{eofLast: r.Intn(2) == 0}
-	for _, c := range cs {
-		src.chunks = append(src.chunks, cp(c))
-	}
-	eofl := src.eofLast
-	rx := bytex.NewReaderX(src)
-	obsR := make([]outc, 0, len(ops))
-	for _, o := range ops {
-		// the guard above assumed that the stream reader is where the buffer reader was; an implementation that has
-		// already diverged may stand elsewhere, in front of a hostile length: refuse that call (EOther is an outcome
-		// the model never produces, so such a case can only be judged as a divergence)
-		if o.k == "RStr" || o.k == "RLimStr" {
-			if rest := src.rest(); len(rest) >= 4 {
-				n := binary.LittleEndian.Uint32(rest[:4])
-				if n > prefixCap && (o.k == "RStr" || n <= o.lim) {
-					obsR = append(obsR, outc{k: "err", e: "EOther"})
-					continue
-				}
-			}
-		}
-		obsR = append(obsR, doRx(rx, o))
-	}
-	restR := src.rest()
-	return []vh.Case{{
-		Coq: fmt.Sprintf("(CStream %s %s %s %s %s %s %s)", coqChunks(cs), vh.CoqBool(eofl), coqOps(ops),
-			coqOuts(obsR), vh.CoqBytes(restR), coqOuts(obsB), vh.CoqBytes(restB)),
-		Class:      "stream/" + kind + "/" + cname,
-		Nontrivial: len(data) > 0 && len(ops) > 0,
-		Desc: map[string]interface{}{"kind": "stream", "chunks": intss(cs), "eof_with_last_data": eofl, "ops": descOps(ops),
-			"readerx": descOuts(obsR), "readerx_rest": ints(restR), "bufferx": descOuts(obsB), "bufferx_rest": ints(restB)},
-	}}
-}
-
 // ---------------------------------------------------------------- fixed corpus
 
 func corpus() []vh.Case {
@@ -679,5 +614,23 @@ func corpus() []vh.Case {
 			Desc: map[string]interface{}{"kind": "stream", "chunks": intss(cs), "ops": descOps(fix.ops), "readerx": descOuts(obsR), "bufferx": descOuts(obsB)},
 		})
 	}
+	// buffered sources and values one byte longer than their window; a refused write in the middle of a sequence
+	long := make([]byte, 4097)
+	for i := range long {
+		long[i] = byte(i % 5)
+	}
+	for _, fx := range []struct {
+		wrap string
+		s    []byte
+	}{{"bufio16", []byte("seventeen bytes!!")}, {"bufio64", long[:65]}, {"bufio4096", long}} {
+		b := bytex.NewBufferX()
+		b.WriteU8(7)
+		b.WriteString(string(fx.s))
+		b.WriteU8(9)
+		c := runStream(r, cp(b.Bytes()), []op{{k: "RU8"}, {k: "RStr"}, {k: "RU8"}}, "window", fx.wrap, false)
+		c.Class = "corpus/" + c.Class
+		cases = append(cases, c)
+	}
+	add(roundCases(r, []op{{k: "WU32", u: 1}, {k: "WLimStr", lim: 3, s: []byte("toolong")}, {k: "WLimStr", lim: 4, s: []byte("tool")}, {k: "WU64", u: 99}}, 1000), "")
 	return cases
 }
